@@ -43,8 +43,14 @@ Init ==
 ASSUME TLCSet(51, 0) /\ TLCSet(52, 0) /\ TLCSet(53, 0)
 Bump(r) == TLCSet(r, TLCGet(r) + 1)
 
+\* Domain restriction (DESIGN C02): a run is decided only while the source machine is never *ahead* of
+\* the time label of the statement it reaches (script time > label time happens only with negative or
+\* decreasing time labels; there a fall-through and a jump to the same place differ and the
+\* documentation does not say which the source means).  Such runs are discarded and counted.
+Ahead(prog, c) == c.st = "run" /\ ~AtEnd(prog, c.pos) /\ c.time > StmtAt(prog, c.pos).tm
 StepA == /\ phase = "run" /\ ~Done(a)
-         /\ a' = Step(ASrc[i], a, diff) /\ UNCHANGED <<i, diff, b, phase>>
+         /\ a' = (LET n == Step(ASrc[i], a, diff) IN IF Ahead(ASrc[i], n) THEN Discard(n) ELSE n)
+         /\ UNCHANGED <<i, diff, b, phase>>
 StepB == /\ phase = "run" /\ a.st = "done" /\ b.st = "run"
          /\ b' = RStep(Pairs[i].instrs, Pairs[i].endoff, Pairs[i].intr, CountGt, b, diff)
          /\ UNCHANGED <<i, diff, a, phase>>
